@@ -4,6 +4,7 @@
  *
  * script lines (stdin):
  *   C <chk>            create; random() returns <chk>
+ *   F                  create with an instance size no allocator can satisfy (malloc fails -> -ENOMEM)
  *   G|P|D|R <ref>      get / put / destroy / refcount_get on a handle reference
  *   X                  iterator_reset          N   iterator_next
  *   #...               case separator: "# case <n>" starts a fresh database
@@ -110,6 +111,15 @@ int main(void)
 				r2 = qb_hdb_handle_put(&db, h);
 				printf("r %d 0\n", r2);
 			}
+		} else if (c == 'F') {
+			/* create whose instance allocation fails: malloc((size_t)-1) returns NULL */
+			qb_handle_t h = 0;
+			int32_t res;
+			next_random = 7;
+			printf("op F 0\n");
+			res = qb_hdb_handle_create(&db, -1, &h);
+			if (n_issued < MAXH) issued[n_issued++] = (res == 0) ? h : 0;
+			printf("r %d 0\n", res);
 		} else if (c == 'G') {
 			uint64_t h = resolve(arg);
 			void *inst = (void *)0x1;
